@@ -396,7 +396,9 @@ def r6_kernel_retry(ctx):
     if not none_exit and cl is not None:
         none_exit = [e for e in cfg.succ.get(h, []) if e.dst not in blks]
     if none_exit:
-        reach = cfg.edge_targets_reachable(none_exit)
+        # variant-sensitive: when the loop lives in a helper that reports exhaustion as a value (`Ok(None)`), only the
+        # caller's arm for that value is what exhaustion reaches
+        reach = cfg.precise_reach(none_exit)
         okret = any(s.kind == "assign" and s.lhs.local == 0 and s.rv["k"] == "agg" and s.rv.get("variant") == "Ok"
                     for x in reach for s in b.blocks[x].stmts)
         sv = any(s.kind == "assign" and s.rv["k"] == "agg" and s.rv.get("variant") == "SafetyViolation" for x in reach for s in b.blocks[x].stmts)
